@@ -53,7 +53,28 @@ func ruleHexString(c *core.Ctx, rule, readerPkg string) {
 				}
 			}
 		}
-		o.Require(found, "formatString has no hex emission of the form <%%x>")
+		if !found {
+			// the same bytes through encoding/hex, with the brackets appended by hand
+			hexCall, lt, gt := false, false, false
+			for _, cs := range core.CallsIn(fn.Info(), fn.Decl, true) {
+				if cs.Key == "encoding/hex.AppendEncode" || cs.Key == "encoding/hex.Encode" || cs.Key == "encoding/hex.EncodeToString" {
+					hexCall = true
+					o.At(fn.Site(cs.Call, "hex form (encoding/hex)"))
+				}
+				if cs.Key == "builtin.append" {
+					for _, a := range cs.Call.Args[1:] {
+						if k, ok := core.IntConst(fn.Info(), a); ok {
+							lt = lt || k == '<'
+							gt = gt || k == '>'
+						}
+					}
+				}
+			}
+			found = hexCall && lt && gt
+		}
+		if !o.Shape(found, "formatString has no hex emission of a known form (<%%x>, or encoding/hex between '<' and '>')") {
+			return
+		}
 		rd := c.Prog.Func(readerPkg, "(*scanner).ReadHexString")
 		// find the byte variable: parameter of the closure passed to ScanBytes, or a local assigned from ReadByte
 		var obj types.Object
